@@ -181,6 +181,56 @@ Theorem C15_claim_never_payment : forall s toks, tokenize s = TokOk toks ->
 Proof. exact claim_never_payment. Qed.
 Print Assumptions C15_claim_never_payment.
 
+(* ---- where scripts travel and where the classification is used ---- *)
+
+(* framed by its compact-size length, as inside a serialised transaction, a generated script is read
+   back whole and parses to the same template and values: EVERY total script length below 2^63 *)
+Theorem C15_generated_output_on_wire : forall name ops vs, In (name, ops) output_templates -> values_fit ops vs ->
+  exists s, generate ops vs = Some s /\
+    (forall rest, N.of_nat (length s) < 9223372036854775808 ->
+       exists s', unframe (frame s ++ rest) = Some (s', rest) /\
+                  parse_output s' = SMatch name (expected ops vs)).
+Proof. exact generated_output_on_wire. Qed.
+Print Assumptions C15_generated_output_on_wire.
+
+Theorem C15_generated_input_on_wire : forall name ops vs, In (name, ops) input_simple_templates -> values_fit ops vs ->
+  exists s, generate ops vs = Some s /\
+    (forall rest, N.of_nat (length s) < 9223372036854775808 ->
+       exists s', unframe (frame s ++ rest) = Some (s', rest) /\
+                  parse_input s' = SMatch name (expected ops vs)).
+Proof. exact generated_input_on_wire. Qed.
+Print Assumptions C15_generated_input_on_wire.
+
+(* daemon 'type' (JSONResponseEncoder), stored txo_type and the coin filter (txo_type IN (other, purchase)):
+   a claim / update / support output is shown and stored as such and is never a coin, whatever follows
+   it in the transaction (a purchase record included) and for EVERY protobuf decoder *)
+Theorem C15_view_locked : forall decodable scripts i s toks,
+  nth_error scripts i = Some s -> tokenize s = TokOk toks -> locked_shape toks ->
+  exists jt r, view_at decodable scripts i = Some (Some jt, r, false) /\
+    (jt = JClaimCreate \/ jt = JClaimUpdate \/ jt = JSupport) /\ (r = 1 \/ r = 3) /\
+    (claim_shape toks -> jt = JClaimCreate /\ r = 1) /\
+    (update_shape toks -> jt = JClaimUpdate /\ r = 1) /\
+    (support_shape toks \/ support_data_shape toks -> jt = JSupport /\ r = 3).
+Proof. exact view_locked. Qed.
+Print Assumptions C15_view_locked.
+
+Theorem C15_view_purchase_only_payment : forall decodable scripts i jt r sp,
+  view_at decodable scripts i = Some (jt, r, sp) -> (jt = Some JPurchase \/ r = 4) ->
+  i = O /\ (exists s0 s1 rest, scripts = s0 :: s1 :: rest /\ purchase_record decodable s1 = true /\
+                                (classify s0 = CPayment \/ classify s0 = CEmpty \/ classify s0 = CData
+                                 \/ classify s0 = CPurchase \/ classify s0 = CNoMatch)) /\
+  (jt = Some JPurchase -> exists s0, nth_error scripts 0 = Some s0 /\ (classify s0 = CPayment \/ classify s0 = CEmpty)).
+Proof. exact view_purchase_only_payment. Qed.
+Print Assumptions C15_view_purchase_only_payment.
+
+(* whatever passes the coin filter (and so may be swept by Account.fund(everything=True)) has no
+   claim / update / support shape *)
+Theorem C15_spendable_not_locked : forall decodable scripts i s toks jt r,
+  nth_error scripts i = Some s -> tokenize s = TokOk toks ->
+  view_at decodable scripts i = Some (jt, r, true) -> ~ locked_shape toks.
+Proof. exact spendable_not_locked. Qed.
+Print Assumptions C15_spendable_not_locked.
+
 (* the fuel of the executable model is never exhausted (the error value exists only in the model) *)
 Theorem C15_total : forall s, tokenize s <> TokErr TokFuel /\ parse_output s <> SFuel /\ parse_input s <> SFuel /\
   forall t, parse_sub t s <> SFuel.
@@ -221,3 +271,10 @@ Example C15_ex_input_order :
   parse_input (bs [0; 1; 170; 1; 187]) =
   SMatch T_script_hash_timelock [(F_signature, VBytes []); (F_pubkey, VBytes (bs [170])); (F_script, VSub SubTimeLock (bs [187]))].
 Proof. vm_compute. reflexivity. Qed.
+Example C15_ex_view :
+  tx_view (fun _ => true)
+    [bs [181; 1; 97; 1; 98; 109; 117; 118; 169; 1; 99; 136; 172]; bs [106; 2; 80; 1]; bs [118; 169; 1; 99; 136; 172]]
+  = [Some (Some JClaimCreate, 1, false); Some (Some JData, 0, true); Some (Some JPayment, 0, true)]
+  /\ tx_view (fun _ => true) [bs [118; 169; 1; 99; 136; 172]; bs [106; 2; 80; 1]]
+  = [Some (Some JPurchase, 4, true); Some (Some JData, 0, true)].
+Proof. exact ex_view. Qed.
